@@ -115,6 +115,24 @@ def build(tier="quick", seed=0):
         pack.add(Obligation(name, lambda tier, name=name, th=th, tname=tname, fname=fname: prove_paths(name, th, lambda p: (p.value == ([fname, "s"], [(tname, 5, "v")]), f"table / column names {p.value[0]}, read back {p.value[1]}")), replay=lambda w, tname=tname, fname=fname: {"call": "c18_names", "args": {"table": tname, "field": fname}},
                             functions=FU, mode="representative names ('/' separated, SQL keywords, prefix 'sqlite')"))
 
+    # a field may be called like SQLite's implicit row id: every row is read back, in write order, whatever the field holds
+    for fname in ("rowid", "oid", "ROWID"):
+        name = f"C18.sql[column {fname!r} holding NULL, 0, duplicates and negative numbers]"
+        ROWS = [(None, "a"), (0, "b"), (7, "c"), (7, "d"), (-1, "e"), (3, "f")]
+
+        def th(fname=fname, ROWS=ROWS):
+            db = fresh()
+            D = it.call(RD, ["c18/ids", [("varint", fname), ("string", "s")]], {})
+            w = writer()
+            for v, s_ in ROWS:
+                it.call(it.getattr_(w, "write"), [it.call(D, [], {fname: v, "s": s_})], {})
+            it.call(it.getattr_(w, "close"), [], {})
+            rd = it.call(sq.g["SqliteReader"], [PATH], {})
+            return [(it.unbase(b.attrs.get(fname)), it.unbase(b.attrs.get("s"))) for b in it.iterate(rd)]
+
+        pack.add(Obligation(name, lambda tier, name=name, th=th, ROWS=ROWS: prove_paths(name, th, lambda p, ROWS=ROWS: (p.value == ROWS, f"rows written {ROWS}, read back {p.value}")), replay=lambda w, fname=fname: {"call": "c18_rowid_column", "args": {"field": fname}},
+                            functions=FU, mode="the names that SQLite also uses for its implicit row id"))
+
     # ------------------------------------------------------------------ descriptor evolution
     def th_evolve(sessions):
         def th():
